@@ -15,9 +15,11 @@ MANIFEST = dict(
     technique='Rocq proof (symbolic bit-level evaluation of the translated pixel codecs proved sound, so the round-trip laws hold '
               'for all 2^32 pixels / all stored values; induction over exponents for the mipmap table; linear arithmetic for '
               'bounds and scale_down indexes; induction over the chain of mipmap levels for the Frame life cycle; struct model for '
-              'every pack/unpack site of the container) + ast translators (codecs, layout, abstract interpretation of class Frame, '
-              'pack/unpack site census) + vm_compute correspondences (codecs, frame histories, container both directions) + '
-              'save/read oracle search',
+              'every pack/unpack site; whole-file theorem decode_file(encode_file v) by composition of the sites, directory, data '
+              'blocks and offsets; induction over sequences and frames for the particle sheet) + ast translators behind a semantic '
+              'normalisation (codecs, layout incl. symbolic evaluation of scale_down, side lists, abstract interpretation of class '
+              'Frame, pack/unpack site census, flag expression trees, order of the file-writing events of save) + vm_compute '
+              'correspondences (codecs, frame histories, container both directions incl. foreign full-chain files) + save/read oracle search',
     text='Theorems in Props/C15.v, generic in the objects read from the source. Codecs (_py_vtf_readwrite.py): if the kernel-checked '
          'boolean rt_ok codec spec holds then load(save p) is exactly the documented quantisation of p for every byte-valued pixel '
          '(identity on the used channels for the 8-bit formats), every stored value is a byte; if sf_ok holds then save(load d) = d on '
@@ -30,25 +32,34 @@ MANIFEST = dict(
          'compute_mipmaps()+save() write for each level the file\'s pixels while it still has its file source, else its pixels, else '
          '(cleared) the scaled pixels written for the level above - so a file read lazily and saved again keeps its bytes (composed '
          'with the codec fixpoint theorem). Container: every struct.pack/unpack site of VTF.save/VTF.read and of the particle-sheet '
-         'records is regenerated (format strings, field order on both sides, read lengths); for a site that passes site_ok every '
-         'fitting value tuple is read back unchanged under the same field names (floats as 32-bit patterns); blocks laid out behind any '
-         'prefix are found again at the running offsets (resource data blocks, thumbnail, frames in save/read order). The premises are '
-         'regenerated from vtf.py/_py_vtf_readwrite.py on every run and checked in the kernel (142 obligations); the generated codecs '
-         'are compared with the Python codecs, the generated Frame effect tables are run by Coq on symbolic pixels against histories of '
-         'operations on the implementation, implementation-saved files are decoded by the Coq container model and model-encoded files '
-         'are read by VTF.read; whole files are saved and read back over all sizes 1x1..64x64, frames, depth, cubemaps, versions 7.2-7.5, '
-         'all writable formats, resources and sheets.',
-    note='Trusted: Coq kernel + vm_compute, translate/c15_pixel.py, c15_frame.py (abstract interpreter; cross-checked dynamically by the '
-         'frame-history correspondence), c15_container.py (its tables of expression -> field name), the model of byte-valued buffers, '
-         'CPython struct as modelled by Bin/Struct.v (floats as bit patterns; NaN payloads not exercised). The whole-file composition '
-         '(directory walk + offsets + optional parts by version) is an executable Coq model tied by a two-way correspondence, not a '
-         'theorem; proved are its parts (sites, blocks at offsets, data block, texture coordinates). Sheets: record-level theorems + '
-         'correspondence; the nested-list round trip is not proved. The two *_BLUESCREEN formats and nearest-neighbour filters are '
-         'searched, not modelled. Known findings (recorded, not repaired): mipmap_count is one less than the number of levels '
-         '(mipmap-count-off-by-one), RGB565/BGR565 exchange R and B on a round trip (rgb565-rb-swap) - both carved out of the theorems '
-         'as *_pinned / *_refuted statements - and cubemaps saved with a version= override across the 7.5 sphere-map boundary '
-         '(cubemap-save-version-override-across-sphere-map-boundary; the container model has no version override). DXT/ATI formats '
-         'are not writable from Python and outside the property. The Cython twin cannot be built here and is not verified.',
+         'records is regenerated (format strings, field order on both sides, read lengths), the resource flag expressions as trees '
+         'judged over the whole byte domain, the side lists of _depth_range and its callers, the loop nests, and the order in which '
+         'save() records the offsets it patches in. Whole file (c15_whole_file_*): for every file whose values fit their fields, '
+         'decode_file(encode_file v) returns the version, the header values with the real header size, the depth, every resource in '
+         'order (flag bit 0x02 normalised, data blocks byte for byte), the particle sheet and the offsets of the thumbnail and of the '
+         'first frame, which are where the thumbnail and the frames lie; composed with the side lists and loop order, every (frame, '
+         'side/depth, mipmap) read() visits gets exactly the bytes save() produced for it, for any object version and written version '
+         '(save(version=)), cubemap or volume; every fitting file can be encoded. Particle sheets: read_sheet(make_sheet qs) = qs for '
+         'both sheet versions (version 0 keeps the first coordinate of a frame only). The premises are regenerated from '
+         'vtf.py/_py_vtf_readwrite.py on every run and checked in the kernel (180 obligations); the generated codecs are compared with '
+         'the Python codecs, the generated Frame effect tables are run by Coq on symbolic pixels against histories of operations on the '
+         'implementation, implementation-saved files are decoded by the Coq container model and model-encoded files (also files that '
+         'declare all mipmap levels, as other tools write them) are read by VTF.read; whole files are saved and read back over all '
+         'sizes 1x1..64x64, frames, depth, cubemaps, versions 7.2-7.5 with overrides, all writable formats, resources and sheets.',
+    note='Trusted: Coq kernel + vm_compute, translate/c15_norm.py (behaviour-preserving rewrites before the translators: constants, '
+         'precompiled structs, product loops, guard clauses, copy propagation of locals that name a side-effect-free expression over '
+         'stable attributes), c15_pixel.py (incl. its polynomial evaluator for scale_down), c15_frame.py (abstract interpreter; '
+         'cross-checked dynamically by the frame-history correspondence), c15_container.py (its tables of expression -> field name), '
+         'the model of byte-valued buffers, CPython struct as modelled by Bin/Struct.v (floats as bit patterns; NaN payloads not '
+         'exercised). encode_file/decode_file/make_sheet/read_sheet are hand-written models of VTF.save/VTF.read/make_data/'
+         'from_resource: the theorems are about them; their tie to the source is the regenerated sites, flag trees, side lists, loop '
+         'nests and event order (instance obligations), the example files evaluated in the kernel over the generated formats, and the '
+         'two-way correspondence on every run - not a refinement proof of the Python control flow. The two *_BLUESCREEN formats, the '
+         'nearest-neighbour filters beyond their offset table and the thumbnail regeneration policy are searched, not modelled. Known '
+         'findings (recorded, not repaired): mipmap_count is one less than the number of levels (mipmap-count-off-by-one), '
+         'RGB565/BGR565 exchange R and B on a round trip (rgb565-rb-swap) - both carved out of the theorems as *_pinned / *_refuted '
+         'statements. Repaired in round 3: save(version=) across the 7.5 sphere-map boundary for cubemaps. DXT/ATI formats are not '
+         'writable from Python and outside the property. The Cython twin cannot be built here and is not verified.',
 )
 
 IMPORTS = ['Coq.NArith.NArith', 'Coq.ZArith.ZArith', 'Coq.Lists.List', 'SV.Fmt.VtfPixelExpr', 'SV.Fmt.VtfLayout', 'SV.Fmt.VtfSides',
